@@ -429,6 +429,21 @@ class _MergedCircuit:
             for k in c.mkeys
         ) and all(self.mkey_indexes[k][-1] <= c.moment_id for k in c.ckeys)
 
+    def has_key_conflict_in_moment(self, c: Component, left_c: Component) -> bool:
+        """Checks whether c cannot join left_c's moment because of another component there.
+
+        Moving c into the moment of left_c is only valid if no other component of that moment
+        measures a key that c measures or is controlled by, or is controlled by a key c measures.
+        """
+        for other in self.components_by_index[left_c.moment_id]:
+            if other is left_c:
+                continue
+            if not c.ckeys.isdisjoint(other.mkeys) or not c.mkeys.isdisjoint(
+                other.mkeys | other.ckeys
+            ):
+                return True
+        return False
+
     def get_cirq_circuit(self, cset: ComponentSet, merged_circuit_op_tag: str) -> cirq.Circuit:
         """Returns the merged circuit.
 
@@ -543,7 +558,11 @@ def _merge_operations_impl(
             other_mkeys = protocols.measurement_key_objs(other_ops)
             other_ckeys = protocols.control_keys(other_ops)
             left_comp = merged_circuit.get_mergeable_components(c, c_qs)
-            if len(left_comp) == 1 and c_qs.issubset(left_comp[0].qubits):
+            if (
+                len(left_comp) == 1
+                and c_qs.issubset(left_comp[0].qubits)
+                and not merged_circuit.has_key_conflict_in_moment(c, left_comp[0])
+            ):
                 # Make a shallow copy of the left component data before merge
                 left_c_data = copy.copy(left_comp[0])
                 # Case-1: Try to merge c with the larger component on the left.
